@@ -202,7 +202,12 @@ fn main() {
                                 if fo != 1 {
                                     continue;
                                 }
-                                format!("⍣({fj}|⍤\"mid\"0 {}|{h})", "◌".repeat(fa))
+                                // (the failure is not syntactically certain, or the compiler would widen the
+                                // handler's signature to the try's outputs: compile/mod.rs try_, is_noreturn)
+                                if fa == 0 {
+                                    continue;
+                                }
+                                format!("⍣({fj}|⍤\"mid\" >∞ {}|{h})", "◌".repeat(fa - 1))
                             }
                         };
                         let Some((ta, to, asm_t)) = sig_of(&body, &prelude) else { continue };
